@@ -788,30 +788,34 @@ func (c *Ctx) entryWalkers() []walker {
 		if fn.Pkg == nil || shortPkg(fn.Pkg.Pkg.Path()) != "yang" {
 			continue
 		}
-		// self-recursive on an *Entry carrier
+		// self-recursive on an *Entry carrier, directly or through a helper that calls back
 		desc := map[string]bool{}
+		ownDir := false // the Dir that is descended through is that of one of fn's own parameters (the node being walked)
+		noteIn := func(in *ssa.Function, x ssa.Value) {
+			if owner, f, base := fieldOf(x); f != nil {
+				switch f {
+				case m.fDir, m.fIn, m.fOut, m.fAugs, m.fDeviate, m.fDeviations:
+					desc[fieldKey(owner, f)] = true
+					if f == m.fDir && in == fn {
+						for i := range fn.Params {
+							if isParamN(fn, base, i) {
+								ownDir = true
+							}
+						}
+					}
+				}
+			}
+		}
+		note := func(x ssa.Value) { noteIn(fn, x) }
 		for _, ci := range c.callsTo(fn, fn) {
 			args, _ := c.carrierArgs(fn, ci)
 			for _, a := range args {
 				if !containsEntry(a.Type(), m.entry) {
 					continue
 				}
-				backSlice(a, func(x ssa.Value) bool {
-					if owner, f, _ := fieldOf(x); f != nil {
-						switch f {
-						case m.fDir, m.fIn, m.fOut, m.fAugs, m.fDeviate, m.fDeviations:
-							desc[fieldKey(owner, f)] = true
-						}
-					}
-					return true
-				})
+				backSlice(a, func(x ssa.Value) bool { note(x); return true })
 			}
 		}
-		if !desc["Entry.Dir"] {
-			continue
-		}
-		// recursion through a helper: fn calls g (same package), g calls fn back on a value loaded
-		// from a link field of what it was given
 		for _, ci := range callsIn(fn, func(ssa.CallInstruction) bool { return true }) {
 			g := ci.Common().StaticCallee()
 			if g == nil || g == fn || g.Blocks == nil || g.Pkg != fn.Pkg {
@@ -824,16 +828,20 @@ func (c *Ctx) entryWalkers() []walker {
 						continue
 					}
 					backSlice(a, func(x ssa.Value) bool {
-						if owner, f, _ := fieldOf(x); f != nil {
-							switch f {
-							case m.fDir, m.fIn, m.fOut, m.fAugs, m.fDeviate, m.fDeviations:
-								desc[fieldKey(owner, f)] = true
+						noteIn(g, x)
+						// what the helper was handed: continue in fn at the corresponding argument
+						if p, isP := x.(*ssa.Parameter); isP {
+							if j := paramIndex(g, p); j >= 0 && j < len(ci.Common().Args) {
+								backSlice(ci.Common().Args[j], func(y ssa.Value) bool { note(y); return true })
 							}
 						}
 						return true
 					})
 				}
 			}
+		}
+		if !desc["Entry.Dir"] || !ownDir {
+			continue
 		}
 		w := walker{fn: fn, descends: desc, class: "other"}
 		switch {
